@@ -550,6 +550,9 @@ func runCheckAll(p *Program, r *RuleResult) {
 			construct := fmt.Sprintf("every-element:%s#%d", callee, ord)
 			w := skipsIteration(p, view, call)
 			if w == "" {
+				w = leavesLoopEarly(p, view, call)
+			}
+			if w == "" {
 				n++
 				r.add(fnName(fn), construct, Holds, p.instrPos(call), "every iteration runs the check")
 			} else {
@@ -563,4 +566,61 @@ func runCheckAll(p *Program, r *RuleResult) {
 		r.note("conditional: %s", c)
 	}
 	r.count("unconditional element checks", n)
+}
+
+// leavesLoopEarly: the innermost loop containing call can be left from inside its body
+// (break, return of a non-error value) - i.e. other than by exhausting the collection or
+// through an error exit. Returns a position, "" if not.
+func leavesLoopEarly(p *Program, view *View, call ssa.Instruction) string {
+	var loop *Loop
+	for _, l := range view.Loops() {
+		if l.Body[call.Block()] && (loop == nil || len(l.Body) < len(loop.Body)) {
+			loop = l
+		}
+	}
+	if loop == nil {
+		return ""
+	}
+	for b := range loop.Body {
+		if b == loop.Header {
+			continue
+		}
+		for _, su := range view.Succs(b) {
+			if loop.Body[su] {
+				continue
+			}
+			// leaving the loop from its body: fine only if it goes straight to an error exit
+			ins := view.Instrs(su)
+			if len(ins) > 0 {
+				if ret, ok := ins[len(ins)-1].(*ssa.Return); ok && len(ret.Results) > 0 {
+					last := ret.Results[len(ret.Results)-1]
+					if isErrorValue(last, view, su, map[ssa.Value]bool{}) {
+						continue
+					}
+					if c, ok := last.(*ssa.Const); ok && c.Value != nil && c.Value.String() == "false" {
+						continue // a boolean check answering "no"
+					}
+				}
+			}
+			bi := view.Instrs(b)
+			pos := p.instrPos(bi[len(bi)-1])
+			if pos == "" || pos == "-" {
+				pos = "block " + b.Comment
+			}
+			return "the loop is left at " + pos
+		}
+		// a return inside the body that is not an error
+		ins := view.Instrs(b)
+		if len(ins) > 0 {
+			if ret, ok := ins[len(ins)-1].(*ssa.Return); ok && len(ret.Results) > 0 {
+				last := ret.Results[len(ret.Results)-1]
+				if !isErrorValue(last, view, b, map[ssa.Value]bool{}) {
+					if c, ok := last.(*ssa.Const); !(ok && c.Value != nil && c.Value.String() == "false") {
+						return "success is returned from inside the loop at " + p.instrPos(ret)
+					}
+				}
+			}
+		}
+	}
+	return ""
 }
